@@ -61,6 +61,10 @@ CHECKS = {
    text="Stream3.tla transcribes the stage-3 release rules (drop_data_try distance, drop of all line parts but the last, the block-aligned case as a design parameter measured on the real reader); TLC checks for every small file, including lines ending exactly on a block end, that the held-block high-water mark stays under 4 x (largest message span) + c whatever the number of lines. On the code, logs of 10/100/1000/4000-10000 blocks with five line-length distributions, plain/gz/bz2/lz4, several --blocksz, with and without a window, are printed with --summary; blocks/lines/syslines high must stay under the model's bound and must not scale with the size (log2 allowance for the windowed plain case).",
    note="Memory = the program's own high-water marks; retention caused by printing lag is bounded by the channel, tolerated by the thresholds.",
    technique="TLA+ model checking (TLC) of release rules + size-decade measurement of the real high-water marks"),
+ "C11": dict(engine="YearWalk", category="model_checking", design_ref="DESIGN.md §6 C11",
+   text="YearWalk.tla transcribes process_missing_year (backward walk, decrement-and-reparse on an apparent jump of more than 25 h into the future, early stop at --dt-after) and states the dating declaratively; TLC checks walk = declaration, termination and coverage of the window on all sequences with ties, backward jitter and several wraps. On the code, rendered `Mon DD HH:MM:SS` logs spanning 0..5 year boundaries (gaps under 300 days, jitter under a day), with the modification time on the plain file / in the gzip header / in the tar member (decoy container mtime), five --tz-offset zones incl. mtimes at the end of the year in the zone, windows in absolute dates, several block sizes, and two-file merges across a New Year are dated by the binary (-u -d) and compared with the true instants.",
+   note="Gaps between consecutive messages under one year; Issue #245 (29 February followed by a later-year message) excluded as documented; windows only on chronological series.",
+   technique="TLA+ transcription checked by TLC against a declarative oracle + rendered-calendar replay"),
 }
 NA_REASON = "check not built yet in this session (work in progress; will be claimed when its machinery exists)"
 
@@ -91,6 +95,7 @@ manifest = {
    {"name": "TextLog", "path": "spec/TextLog.tla", "serves_properties": ["C02", "C12", "C03", "C17", "C11"], "kind_free_text": "TLA+ specification of lines/messages/reader API; BlockZero.tla transcribes the block-zero acceptance"},
    {"name": "Walk", "path": "spec/Walk.tla", "serves_properties": ["C15"], "kind_free_text": "directory expansion order / filtering / stdin splice"},
    {"name": "Classify", "path": "spec/Classify.tla", "serves_properties": ["C16"], "kind_free_text": "name -> reader/container"},
+   {"name": "YearWalk", "path": "spec/YearWalk.tla", "serves_properties": ["C11"], "kind_free_text": "year inference for year-less timestamps"},
    {"name": "Stream3", "path": "spec/Stream3.tla", "serves_properties": ["C17"], "kind_free_text": "stage-3 release rules / retained-set bound"},
    {"name": "Stream", "path": "spec/Stream.tla", "serves_properties": ["C05"], "kind_free_text": "decoder chunk assembly / look-behind drop"},
    {"name": "Ordered", "path": "spec/Ordered.tla", "serves_properties": ["C08", "C09", "C10", "C03"], "kind_free_text": "collect / window / key-ordered emission for record files, evtx, journal"},
